@@ -154,7 +154,7 @@ class C16(Prop):
             'count': st.integers(0, 5),
             'flag': st.booleans(),
             'watches': st.lists(st.sampled_from(['name', 'count', 'nope']), max_size=1),
-            'logger': st.sampled_from(['recording', 'recording', 'python_plugin']),
+            'logger': st.sampled_from(['recording', 'recording', 'python_plugin', 'recording', 'none']),
             'route': st.sampled_from(['args', 'args', 'response']),
             'snapshot_arg': st.sampled_from([None, None, None, 'collect', 'NO_COLLECT', 'No_Collect', 'yes']),
         })
@@ -217,7 +217,10 @@ class C16(Prop):
             trig = build_trigger('tp-log-1', PATH, LINE, args, watches, [])
         logger = lab.RecLogger()
         stock = recipe.get('logger') == 'python_plugin'
-        handler, cfg, push = lab.make_handler([trig], plugins=[logger])
+        no_logger = recipe.get('logger') == 'none' and not (raw_mode and not WELL_FORMED.match(template))
+        if no_logger:
+            out.cls('no_tracepoint_logger_loaded')
+        handler, cfg, push = lab.make_handler([trig], plugins=[] if no_logger else [logger])
         records = []
         if stock:
             # the stock tracepoint logger (PythonPlugin) writes through the deep logger: observe the emitted record
@@ -287,6 +290,17 @@ class C16(Prop):
                 continue
             new_logs = logger.calls[n_log:]
             new_snaps = push.snapshots[n_snap:]
+            if no_logger:
+                # nobody to hand the message to: a collecting tracepoint still records it on its snapshot
+                if permitted and recipe['collect'] and not odd_snapshot_arg:
+                    if len(new_snaps) != 1:
+                        out.violate('log+snapshot tracepoint produced %d snapshots' % len(new_snaps))
+                        break
+                    if not same_text(new_snaps[0].log_msg, exp_msg):
+                        out.violate('snapshot log message differs from the template rendering (no logger loaded)',
+                                    {'snapshot': str(new_snaps[0].log_msg)[:120], 'expected': exp_msg[:120]})
+                        break
+                continue
             if len(new_logs) != (1 if permitted else 0):
                 errs = ','.join(sorted(set(lab.LOGS.errors())))[:120]
                 out.violate('%s log messages on a %s hit [%s]' % (len(new_logs), 'permitted' if permitted else 'refused',
